@@ -419,6 +419,17 @@ pub enum Op {
     },
     /// an authentic token issued by the *other* feature-set binary (outbox exchange, DESIGN §4):
     /// its provenance is known to the model although this binary cannot issue it
+    /// a token issued by the foreign issuer (src/foreign.rs): authentic under `key`, carrying exactly the
+    /// bytes `payload_hex` (not necessarily UTF-8)
+    ForeignIssue {
+        proto: Proto,
+        key: usize,
+        nonce_hex: String,
+        payload_hex: String,
+        footer: Option<String>,
+        assertion: Option<String>,
+        out: u32,
+    },
     /// observe arm of C10: `n` direct draws from the library's random-key constructor (the one every local
     /// builder takes its nonce material from), real OS entropy passing through the hook unmodified
     DrawKeys { n: u32 },
@@ -575,6 +586,7 @@ pub enum Obs {
     Literal,
     NewVerifier { ok: bool, notes: Vec<String> },
     Deliver { main: DeliverObs, twin: Option<DeliverObs>, control: Option<DeliverObs> },
+    ForeignIssue { issued: bool },
     Draws { ok: u32, failed: u32, distinct: u32, constant_positions: u32, worst_bit_dev_centisigma: u32 },
     Reconfigure { applied: bool },
     /// a prefix-of-current reconfiguration, resolved to the plain operation it amounted to
